@@ -88,6 +88,7 @@ class OW(G):
         private = (r.random() < 0.5) if private is None else private
         ref = self.new_obj()
         tmpl, info = objs.make(kind, ref, r, token=token, private=private, **kw)
+        if hasattr(self, "tweak_template"): tmpl = self.tweak_template(kind, tmpl)
         self.info[ref] = info
         ok = self.can_create(pid, s, token, private)
         self.emit({"f": "C_CreateObject", "s": s.ref, "tmpl": tmpl, "out": ref}, tid, ok=ok)
